@@ -144,6 +144,16 @@ def main(argv=None):
             broken.append(f"obligation generation crashed: {type(e).__name__}: {e}")
             canres = []
         P["jobs"] = len(results)
+        bpath0 = os.path.join(VERIF, "baseline", prop + ".json")
+        base_loops = (json.load(open(bpath0)).get("loops", {}) if os.path.exists(bpath0) else {})
+        for jr in results:
+            bl = base_loops.get(jr["tag"])
+            if bl is not None and jr.get("loop_keys") is not None and bl != jr["loop_keys"] and not jr["error"] \
+                    and not jr["inapplicable"] and any(r["status"] != "proved" for r in jr["results"]):
+                # the loop structure differs from the one the invariants were keyed to: needs a re-keyed contract;
+                # refutations under shifted keys would be artefacts (the bounded / run-time layers still decide)
+                jr["inapplicable"] = (f"{jr['tag']}: the loop structure of {jr['func']} changed (contract keyed to {bl}, "
+                                      f"found {jr['loop_keys']}); its loop invariants need re-keying - obligations not decided")
         for jr in results:
             if jr["error"]:
                 broken.append(f"{jr['tag']}: {jr['error'][-300:]}")
@@ -155,7 +165,7 @@ def main(argv=None):
                 broken.append(f"{jr['tag']}: preconditions unsatisfiable (vacuous contract)")
             if jr.get("missing_loops"):
                 P["inapplicable"].append(f"{jr['tag']}: loop invariants keyed to loops that no longer exist: {jr['missing_loops']}")
-            if not jr["results"]:
+            if not jr["results"] and not jr.get("only_kinds"):
                 broken.append(f"{jr['tag']}: zero obligations generated")
             P["functions"].append(f"{jr['module']}:{jr['func']} [{jr['tag']}]")
             for r in jr["results"]:
@@ -211,7 +221,8 @@ def main(argv=None):
         sorted(r["id"] for r in structural if r["status"] == "proved")
     if args.update_baseline:
         os.makedirs(os.path.dirname(bpath), exist_ok=True)
-        json.dump({"proved": ids_now}, open(bpath, "w"), indent=0)
+        json.dump({"proved": ids_now, "loops": {jr["tag"]: jr.get("loop_keys", []) for jr in results if jr.get("loop_keys")}},
+                  open(bpath, "w"), indent=0)
     baseline = set(json.load(open(bpath))["proved"]) if os.path.exists(bpath) else set()
 
     # ------------------------------------------------------------ B layer
@@ -371,8 +382,11 @@ def main(argv=None):
         cov["samples"] = ["(no obligations generated)"]
     ev = {"property_id": prop, "tier": args.tier, "seed": seed, "level": level_out, "coverage": cov,
           "assumptions": getattr(mod, "ASSUMPTIONS", []), "wall_s": wall, "violations": len(violations)}
-    os.makedirs(os.path.join(VERIF, "evidence"), exist_ok=True)
-    with open(os.path.join(VERIF, "evidence", prop + ".json"), "w") as f:
+    # runs against another tree (PVC_REPO: seeded changes, scratch mutations) must not overwrite the evidence of /repo
+    evdir = os.path.join(VERIF, "evidence") if os.path.realpath(build.REPO) == "/repo" else \
+        os.path.join(VERIF, ".cache", "evidence-other-tree")
+    os.makedirs(evdir, exist_ok=True)
+    with open(os.path.join(evdir, prop + ".json"), "w") as f:
         json.dump(ev, f, indent=1, default=str)
 
     # ------------------------------------------------------------ report
